@@ -356,7 +356,7 @@ def main():
             defaults["packet"] = text
             json.dump(defaults, open(DEFAULTS_PATH, "w"))
             print("wrote packet to " + DEFAULTS_PATH)
-    except (ParseError, OSError, ValueError, KeyError, IndexError) as ex:
+    except Exception as ex:  # anything unexpected in the source: fall back, never crash
         print("gen_packet: could not extract (recorded translation used; tie by correspondence only): Packet split (%s)" % ex, file=sys.stderr)
         text = defaults.get("packet")
         if text is None:
